@@ -314,6 +314,14 @@ func genC18(e *emitter, tier string, seed int64) {
 		emitV2(e, prelude+"x = "+path+"\nif x == nil {\n  p(\"nil\")\n}\np(x)\n", 3000, "index-paths")
 		emitV2(e, prelude+path+" = 9\np(m, l)\n", 3000, "index-paths")
 	}
+	// slices of values that cannot be sliced: the bounds are evaluated (calls happen, their errors come first)
+	for _, src := range []string{"x = 5\ny = x[pr(1):]\n", "x = nil\ny = x[undefined_name:2]\n", "m = {}\ny = m[pr(0):pr(1):pr(1)]\n", "x = true\ny = x[a.b:2]\n", "x = 1.5\ny = x[:pr(2)]\n", "x = 5\ny = x[::void()]\n"} {
+		emitV2(e, src+"p(\"end\")\n", 3000, "slice-unsliceable")
+	}
+	// membership in a map is about the key: a key holding nil is a member
+	for _, src := range []string{"p(\"a\" in {\"a\": nil})\n", "m = {}\nm[\"d\"] = nil\np(\"d\" in m, \"e\" in m, len(m))\n", "m = {\"a\": nil, \"b\": 0}\nfor k in m {\n  p(k in m)\n}\n", "m = {\"a\": nil}\nif \"a\" in m {\n  p(\"yes\")\n} else {\n  p(\"no\")\n}\n", "p(\"\" in {\"\": nil}, nil in [nil], \"x\" in {\"x\": false})\n"} {
+		emitV2(e, src, 3000, "in-nil-valued-key")
+	}
 	// for-in over strings cut inside a character (slices count bytes): each invalid byte is one U+FFFD
 	for _, it := range []string{`"é"[0:1]`, `"héllo"[2:]`, `"ab世"[:4]`, `"日志"[::-1]`, `"日志"[1:5]`, `"aé"`, `""`, `"é"[1:]`} {
 		emitV2(e, "n = 0\nfor c in "+it+" {\n  n = n + 1\n  p(c, len(c))\n}\np(n)\n", 3000, "string-iteration")
